@@ -66,7 +66,9 @@ def sampler_configs(draw, classes=CLASSES, max_d=4, target_kinds=("gauss", "gaus
                       "mass_log": [draw(st.floats(-1, 1)) for _ in range(d)], "mass_corr": draw(st.floats(-0.6, 0.6)),
                       "grad": draw(st.booleans()),
                       # whole-number inverse masses may be given as Python ints / integer arrays
-                      "mass_int": draw(st.sampled_from([False, False, False, True, "int8", "uint8"]))}
+                      "mass_int": draw(st.sampled_from([False, False, False, True, "int8", "uint8"])),
+                      # a matrix obtained by inverting a Hessian (symmetric up to the last bit), a scalar held in a 0-d array
+                      "mass_form": draw(st.sampled_from([None, None, "computed", "computed"]))}
     if cls == "ensemble":
         cfg["ens"] = {"extra_walkers": draw(st.integers(1, 6)), "alpha": draw(st.sampled_from([2.0, 1.5, 3.0, draw(st.floats(1.2, 5))])),
                       # whole-number starting positions may be held in an integer array
@@ -190,6 +192,8 @@ def build(cfg, target=None, record=True):
     T_arg = cfg["T"]
     if prec.get("T") == "numpy":
         T_arg = np.array([cfg["T"]])[0]
+    elif prec.get("T") in ("float32", "float16") and float(np.dtype(prec["T"]).type(cfg["T"])) == cfg["T"]:
+        T_arg = np.dtype(prec["T"]).type(cfg["T"])       # (a temperature such as 3.0 or 0.5, taken from a single-/half-precision array)
     if prec.get("widths") == "float32":
         widths = widths.astype(np.float32)
     if prec.get("start") == "float32" and box is None and not cfg.get("limits"):
@@ -240,6 +244,10 @@ def build(cfg, target=None, record=True):
                 # (whole-number masses in an integer array; narrow types if they can hold them)
                 inv_mass = np.maximum(1, np.round(inv_mass))
                 inv_mass = inv_mass.astype(h["mass_int"] if isinstance(h["mass_int"], str) and inv_mass.max() <= 127 else np.int64)
+            if h.get("mass_form") == "computed" and h["mass"] == "matrix":
+                inv_mass = np.linalg.inv(np.linalg.inv(inv_mass))        # what a user computes from a Hessian: not bit-symmetric
+            elif h.get("mass_form") == "computed" and h["mass"] == "scalar" and not h.get("mass_int"):
+                inv_mass = np.array(inv_mass)                            # a 0-d array (np.load of a saved scalar, .squeeze())
             if prec.get("mass") == "view" and h["mass"] == "matrix":
                 big = np.zeros((2 * d, 2 * d))
                 big[::2, ::2] = inv_mass
